@@ -376,6 +376,7 @@ fn main() {
                 .unwrap_or(0),
         ),
         "pkenc" => rt::pkenc(),
+        "piindex" => rt::piindex(),
         "roundtrip" => rt::roundtrip(&tier),
         "qm" => rt::qm(),
         "hostile" => rt::hostile(&tier),
